@@ -90,6 +90,12 @@ CLAIMED.update({
    text='|dequant(quant(x)) - x| <= s/2 (symmetric) / s (asymmetric) for every x in the statistics range and every integer range (lemma chain over the reference functions, linked to the code by C17/C04); int4 nibble packing for arbitrary length and index; quantize_tensor writes exactly pack(bytes(quantized_data)), dtype table, scale/zeroPoint/dimension fields, under the precondition "stored data <=> quantized_data present", which every registered materialize path and every call site is shown to establish; fp16 constants are astype(float16) of the originals; bias = clip(rint(bias/scale)).',
    note='float32 arithmetic treated as real arithmetic (binary32 decode only sampled in a bounded stand-in); numpy astype(float16) = round-to-nearest-even trusted; tobytes/frombuffer trusted; int64 bias saturation at +2^63 noted as an observation outside the property (saturation exempted).',
    design='§4 C05'),
+ 'C08': dict(
+   technique='contract-based verification of totality: census of every raise site (and list.remove) on the call trees of load/calibrate/quantize from the real ASTs (call graph of vlib/effects.py), each site discharged as unreachable under the shipped-recipe precondition by call-graph gates + exhaustive native evaluation of the real guards over the finite (recipe rule x operator x tensor role) space, pyvc/z3 for the dtype tables, or a stated precondition',
+   level='proof',
+   text='58 raise sites on 164 functions; every site that can be reached only through recipe loading / resolution, registry look-ups, the mode table, dtype tables or operator-signature guards is shown unreachable for the shipped recipes (enumerated from the recipes directory and recipe.py on every run); a new raise site, or a site that loses its proof, fails a named obligation. The one genuinely reachable site (buffer-sharing rejection of one tensor whose consumers need different parameters) is a listed known finding with a class predicate; a second one (list.remove in the requantize branch) was repaired.',
+   note='Pre8 = shipped recipe unchanged, converter normal form (one buffer per tensor, unique names, float32), single-subgraph models; 9 sites hold by these preconditions (guard text re-matched every run). 5 numeric-kernel / validity sites are not obligations (unreached in 50,000 bounded pipeline runs, listed). Implicit raises other than list.remove only through the bounded public-API stand-in. The class-exclusion argument for the known finding is bounded in the number of consumers.',
+   design='§4 C08'),
  'C09': dict(
    technique='contract-based deductive verification: AST symbolic executor (pyvc) over the real Calibrator code (whole calibrate loop with callee contracts, _update_qsvs, load_model_qsvs, _initialize_model_qsvs); CPython-executed symbolic arrays for the moving average and min/max collection; spec-level induction lemmas for fold/resume',
    level='proof',
